@@ -135,7 +135,7 @@ GEN = {
     "NINF": lambda r: r.choice(["-inf", "-Inf", "-Infinity", "-infinity"]),
     "OVERFLOW": lambda r: r.choice(["1e999", "9.9e400", f"{r.randint(1, 9)}e{r.randint(400, 9999)}", "1e1000000000000000000", "2.5E+1000000000000000000", "9e99999999999999999999"]),
     "UNDERFLOW": lambda r: r.choice(["1e-999", "2.5e-400", f"{r.randint(1, 9)}e-{r.randint(400, 9999)}", "1e-1000000000000000000", "0." + "0" * 400 + "1"]),
-    "DIGITLIKE": lambda r: r.choice(["\u00b2", "10\u00b3", "\u2460", "\u2460\u2461\u2462\u2463", "202\u00b2", "\u00bd", "1\u00bd", "\u4e94", "\u2167", "\u2488", "\u2776", "\u2080", "1\u2070", "\u3007",
+    "DIGITLIKE": lambda r: r.choice(["\u2212120.5", "\u22121", "2.5e\u22123", "\u22120.0", "\u201312", "1\u00b75", "1,5", "1 000", "1'000", "1\u202f000", "\uff0d5", "5\u2212","\u00b2", "10\u00b3", "\u2460", "\u2460\u2461\u2462\u2463", "202\u00b2", "\u00bd", "1\u00bd", "\u4e94", "\u2167", "\u2488", "\u2776", "\u2080", "1\u2070", "\u3007",
                                       "\u00b9\u00b2:\u00b3\u2070:\u2074\u2075", "\u2460\u2461\u2462\u2463-\u2460\u2461-\u2460\u2461"]),
     "TIME": _time,
     "TIME_ZONED": lambda r: _time(r) + r.choice(["Z", "Z", "+00:00", "-00:00", f"+{r.randint(0, 12):02d}:{r.choice([0, 30, 45]):02d}", f"-{r.randint(0, 12):02d}:{r.choice([0, 30]):02d}"]),
